@@ -31,3 +31,29 @@ PROPS["C19"] = dict(
                                             "roundtrip_checks": 1000}),
     assumptions=[A_SAN, A_GEN, "libm long double log1pl/expl as the reference"],
 )
+
+PROPS["C20"] = dict(
+    title="The hash table behaves as a map under any operation history",
+    level="exploration",
+    technique="runtime reference-model monitor (association list) over generated and exhaustively enumerated operation histories, under ASan/UBSan/LSan",
+    level_text="exploration with an exhaustive sub-domain: every history of length <= 5 (quick) / 6 (thorough) over three keys "
+               "sharing one bucket (enter/replace/delete/lookup x 3 keys + empty), in all four key families, is enumerated; "
+               "long random histories over colliding / prefix / case-variant / empty / binary key pools come on top. "
+               "After every operation the return value and entry count, and periodically every lookup, the iterator and the "
+               "list export, are compared with the model.",
+    level_note="equality is decided by the harness on key bytes (never by hashing); binary keys differing only in ASCII case are "
+               "not used in no-case tables (the table hashes raw bytes but compares case-folded there: no single meaning of 'equal')",
+    rule="case < 676: exhaustive enumeration of all histories with a given 2-op prefix and family; other cases: one random history "
+         "(12k ops quick / 40k thorough) over a generated key pool. Non-trivial = at least one full check ran; distinct = distinct "
+         "prefix/family or distinct hash of the op sequence.",
+    exhaustive=False,
+    exhaustive_note="short-history sub-domain (<= 5 or 6 ops over 3 colliding keys, 4 families) is enumerated completely; long histories are sampled",
+    stages=[
+        dict(harness="h_hash", flavor="asan", quick=676 + 160, thorough=676 + 3000, leaks=True),
+        dict(harness="h_hash", flavor="fast", quick=676 + 320, thorough=676 + 6000, name="h_hash_fast"),
+    ],
+    floor=dict(min_evaluations=676, counters={"delete_head_with_chain": 1, "delete_head_alone": 1, "delete_chain_front_or_middle": 1,
+                                             "delete_chain_tail": 1, "op_empty": 1, "op_replace_existing": 1,
+                                             "histories_string_nocase": 1, "histories_binary_case": 1, "exhaustive_histories": 1000}),
+    assumptions=[A_SAN, A_GEN, "values are distinct non-NULL tokens so a NULL return is unambiguous"],
+)
